@@ -53,6 +53,8 @@ pub struct Program {
 	pub assoc_consts: HashMap<(String, String), (syn::Type, syn::Expr)>,
 	pub consts: HashMap<String, (syn::Type, syn::Expr)>,
 	pub consts_by_file: HashMap<(String, String), (syn::Type, syn::Expr)>,
+	pub const_file: HashMap<String, String>,
+	pub assoc_const_file: HashMap<(String, String), String>,
 	pub fns_by_file: HashMap<(String, String), Rc<FnDef>>,
 	pub aliases: HashMap<String, syn::Type>,
 	pub free_fns: HashMap<String, Rc<FnDef>>,
@@ -362,6 +364,7 @@ impl Program {
 								self.assoc_types.insert((head.clone(), t.ident.to_string()), t.ty.clone());
 							}
 							syn::ImplItem::Const(c) => {
+								self.assoc_const_file.insert((head.clone(), c.ident.to_string()), path.to_string());
 								self.assoc_consts.insert((head.clone(), c.ident.to_string()), (c.ty.clone(), c.expr.clone()));
 							}
 							_ => {}
@@ -396,6 +399,7 @@ impl Program {
 							}
 							syn::TraitItem::Const(c) => {
 								if let Some((_, e)) = &c.default {
+									self.assoc_const_file.insert((tn.clone(), c.ident.to_string()), path.to_string());
 									self.assoc_consts.insert((tn.clone(), c.ident.to_string()), (c.ty.clone(), e.clone()));
 								}
 							}
@@ -426,6 +430,7 @@ impl Program {
 				syn::Item::Const(c) => {
 					if attr_cfg_ok(&c.attrs, &feats) {
 						self.consts_by_file.insert((path.to_string(), c.ident.to_string()), (*c.ty.clone(), *c.expr.clone()));
+						self.const_file.insert(c.ident.to_string(), path.to_string());
 						self.consts.insert(c.ident.to_string(), (*c.ty.clone(), *c.expr.clone()));
 					}
 				}
